@@ -1,6 +1,6 @@
 CHECK = {
-    "suites": [suite("tracker", "c06", 4000, 60000, stdin=True, args=["-mode", "t"]),
-               suite("global", "c06", 1500, 20000, stdin=True, args=["-mode", "g"])],
+    "suites": [suite("tracker", "c06", 20000, 250000, stdin=True, args=["-mode", "t"]),
+               suite("global", "c06", 5000, 50000, stdin=True, args=["-mode", "g"])],
     "gen": [{"pkg": "extract_c06", "out": "lean/ClusterVerif/Gen/C06.lean"}],
     "lean_sources": ["ClusterVerif/Model/C06.lean", "ClusterVerif/Spec/C06.lean", "ClusterVerif/Lemmas/C06.lean",
                      "ClusterVerif/Gen/C06.lean"],
